@@ -492,8 +492,13 @@ fn amend_benefit_sales(pdf_data: PdfData) -> Result<AmendBenefitsRes, Vec<SError
                 // Remove matches from leftover trades
                 let mut indexes = Vec::<usize>::with_capacity(matched_trades.len());
                 for t in matched_trades {
-                    let index =
-                        leftover_trade_confs.iter().position(|t_| t_ == t).unwrap();
+                    // Locate the matched trade by identity, not by equality:
+                    // two equal confirmations (e.g. the same file name in two
+                    // directories) must each be removed exactly once.
+                    let index = leftover_trade_confs
+                        .iter()
+                        .position(|t_| std::ptr::eq(t_, t))
+                        .unwrap();
                     indexes.push(index);
                 }
                 // Sort reversed
